@@ -12,4 +12,9 @@ open Sftp
     the result has the length of the data and equals it for every hint. -/
 theorem fx_copy_prims_exact : G.fxCopyPrims.all (fun p => p.2) = true ∧ G.fxCopyPrims.length = 2 := by decide
 
+/-- (*Buffer).Reset clears the read offset and the sticky Err together with the contents (whole-value replacement):
+    a Buffer after Reset is a fresh Buffer, so marshalling into / decoding from a REUSED Buffer is the fresh-Buffer
+    case the layout theorems are about (behaviour checked by the harness, keys buffer/*). -/
+theorem fx_buffer_reset_clears_all : G.fxBufferResetClearsAll = true := by decide
+
 end Sftp.C06CopyPrims
